@@ -16,6 +16,7 @@ import ChialispModel.Drv.Core2Syms
 import ChialispModel.Drv.Src
 import ChialispModel.Drv.Entry
 import ChialispModel.Drv.Purity
+import ChialispModel.Drv.Fresh
 import ChialispModel.Drv.Text
 import ChialispModel.Drv.Serde
 import ChialispModel.Drv.Tables
@@ -44,6 +45,7 @@ def main (args : List String) : IO UInt32 := do
   | ["src"] => Drv.Src.run; return 0
   | ["entry"] => Drv.Entry.run; return 0
   | ["purity"] => Drv.Purity.run; return 0
+  | ["fresh"] => Drv.Fresh.run; return 0
   | ["text"] => Drv.Text.run; return 0
   | ["serde"] => Drv.Serde.run; return 0
   | ["tables"] => Drv.Tables.run; return 0
